@@ -13,7 +13,11 @@ import subprocess
 
 
 def S(collection, **args):
-    return {"collection": collection, "args": {k: str(v) for k, v in args.items()}}
+    nodriver = bool(args.pop("nodriver", 0))
+    d = {"collection": collection, "args": {k: str(v) for k, v in args.items()}}
+    if nodriver:
+        d["nodriver"] = True
+    return d
 
 
 def keys(n, start=0):
@@ -40,6 +44,9 @@ def tree_scopes(tier, updates=1, ro=1, fill=1, growth=True, logs=True, rnd=True)
         # 16-byte keys with 16-byte alignment (the buffer then has to start at 8 mod 16)
         S("tree", type="T32u128u64", mode="bfs", slots=3, cap=3, keys="0,1,2,3", updates=0, ro=ro, fill=fill),
         S("tree", type="T8u128u8", mode="bfs", slots=3, cap=3, keys="0,1,2,3", updates=0, ro=0, fill=fill),
+        # oracle-only: a value type whose Default is not all-zero bytes
+        S("tree", type="T32u32bps", mode="bfs", slots=3, cap=3, keys="0,1,2,3", updates=0, ro=ro, fill=fill, nodriver=1),
+        S("tree", type="T8u8bps", mode="bfs", slots=3, cap=3, max_slots=4, keys="0,1,2,3", updates=0, ro=0, fill=fill, nodriver=1),
     ]
     if growth:
         q += [
@@ -131,11 +138,16 @@ def hset_scopes(tier, fill=1, rnd=True):
         S("hset", type="HU32", mode="bfs", slots=3, cap=2, vals=keys(5), fill=fill),
         S("hset", type="HWeak", mode="bfs", slots=1, cap=1, vals=keys(4), fill=fill),
         S("hset", type="HA32", mode="bfs", slots=3, cap=3, vals=keys(5), fill=fill),
+        S("hset", type="HU128", mode="bfs", slots=3, cap=3, vals=keys(5), fill=fill),
+        # oracle-only (types outside the model): equality/hash on part of the value; non-zero Default
+        S("hset", type="HTicket", mode="bfs", slots=3, cap=3, vals=keys(4), fill=0, nodriver=1),
+        S("hset", type="HBps", mode="bfs", slots=3, cap=3, vals="0,1,2,10000", fill=fill, nodriver=1),
     ]
     if rnd:
         q += [
             S("hset", type="HU64", mode="random", slots=32, cap=32, vals=keys(80), histories=100, length=400, fill=fill),
             S("hset", type="HWeak", mode="random", slots=24, cap=24, vals=keys(60), histories=100, length=400, fill=fill),
+            S("hset", type="HWeak", mode="random", slots=48, cap=48, vals=keys(110), histories=20, length=700, fill=fill, fresh_base=100000),
             S("hset", type="HU64", mode="random", slots=600, cap=600, vals=keys(1500), histories=2, length=9000, checkpoint=150, fill=fill, fresh_base=100000),
         ]
     if tier == "quick":
